@@ -128,6 +128,66 @@ package app
 //@   modifies r.startPos, r.endPos
 //@   top-ensures err == nil && r.startPos == startPos && r.endPos == endPos + 1
 
+// The small-file reader serves exactly the window [startPos, endPos): a Read hands the file (or copies from the
+// listing) at most the bytes left in the window, starting at the current position, and advances by what was read;
+// the window's end never moves.
+//@ extern os.File.ReadAt(f, b, off) n, err
+//@   abstract-too
+//@   modifies mem
+//@   ensures 0 <= n && n <= len(b)
+//@ func fsSmallFileReader.Read(r, p) n, err
+//@   props C08
+//@   requires r != nil && r.ff != nil && 0 <= r.startPos && r.startPos < 4611686018427387904 && 0 <= r.endPos && r.endPos < 4611686018427387904
+//@   requires r.ff.f == nil ==> r.endPos <= len(r.ff.dirIndex)
+//@   modifies r.startPos, mem
+//@   assert before ReadAt: arg2 == old(r.startPos) && len(arg1) <= old(r.endPos) - old(r.startPos) && len(arg1) <= len(p) && sameArray(arg1, p) && off(arg1) == off(p)
+//@   top-ensures 0 <= n && n <= len(p) && r.startPos == old(r.startPos) + n && r.endPos == old(r.endPos)
+//@   top-ensures old(r.endPos) > old(r.startPos) ==> n <= old(r.endPos) - old(r.startPos)
+//@   top-ensures old(r.endPos) <= old(r.startPos) ==> n == 0 && err != nil
+//@   top-ensures r.ff.f == nil && !mayAlias(p, r.ff.dirIndex) ==> forall(k, 0, n, p[k] == r.ff.dirIndex[k + old(r.startPos)])
+
+// WriteTo of the small-file reader (typestate): a listing is written as the window dirIndex[startPos:endPos] in one
+// piece; a file is copied in steps that read at the current position no more than what is left of the window and
+// write exactly the bytes that step read. wt*: the buffer and count of the last ReadAt.
+//@ ghost var wtArr int
+//@ ghost var wtOff int
+//@ ghost var wtN int
+//@ interface io.Writer.Write(this, p) n, err
+//@   abstract-too
+//@   modifies mem
+//@   ensures 0 <= n && n <= len(p)
+//@ func fsSmallFileReader.WriteTo(r, w) n, err
+//@   props C08
+//@   abstract
+//@   noinline
+//@   panics
+//@   requires r != nil && r.ff != nil && 0 <= r.startPos && r.startPos <= r.endPos && r.endPos < 4611686018427387904
+//@   modifies wtArr, wtOff, wtN, mem
+//@   assert before Write#0: sameArray(arg1, r.ff.dirIndex) && off(arg1) == off(r.ff.dirIndex) + r.startPos && len(arg1) == r.endPos - r.startPos
+//@   assert before ReadAt: arg2 == curPos && len(arg1) <= r.endPos - curPos
+//@   ghostset before ReadAt: wtArr = arr(arg1)
+//@   ghostset before ReadAt: wtOff = off(arg1)
+//@   ghostset after ReadAt: wtN = result0
+//@   assert before Write#1: arr(arg1) == wtArr && off(arg1) == wtOff && len(arg1) == wtN
+//@   loop 0:
+//@     invariant r.startPos <= curPos && curPos <= r.endPos && r.endPos < 4611686018427387904 && r.startPos == old(r.startPos) && r.endPos == old(r.endPos)
+
+// The big-file reader reads from whatever r.r is (the file, or the range limiter UpdateByteRange installed): Read
+// and both WriteTo paths use r.r, never the file directly (which would ignore a range).
+//@ func bigFileReader.Read(r, p) n, err
+//@   props C08
+//@   abstract
+//@   noinline
+//@   panics
+//@   assert before Read: arg0 == r.r && sameSlice(arg1, p)
+//@ func bigFileReader.WriteTo(r, w) n, err
+//@   props C08
+//@   abstract
+//@   noinline
+//@   panics
+//@   assert before ReadFrom: arg1 == r.r
+//@   assert before CopyZeroAlloc: arg1 == r.r
+
 // handleRequest, the range part (typestate): the reader, the Content-Range header and the announced body length
 // all use the pair that ParseByteRange returned without error for this file's length.
 //@ ghost var rgOK bool
